@@ -94,6 +94,18 @@ func buildAll(cfgs []config) []built {
 			sem <- struct{}{}
 			defer func() { <-sem }()
 			files := probe.ReadProbe("input")
+			// second schema file + hand-written model whose METHODS receive arguments
+			// (props/c02/probe): Box and PointIn are bound through models:
+			for rel, dst := range map[string]string{"methods.graphql": "methods.graphql", "boxmodel/box.go": "boxmodel/box.go"} {
+				b, err := os.ReadFile(filepath.Join(common.Root, "props", "c02", "probe", rel))
+				if err != nil {
+					probe.Cleanup()
+					common.Broken("probe extension: %v", err)
+				}
+				files[dst] = string(b)
+			}
+			files["gqlgen.yml"] = strings.Replace(files["gqlgen.yml"], "  - schema.graphql\n", "  - schema.graphql\n  - methods.graphql\n", 1) +
+				"  Box:\n    model: probe/boxmodel.Box\n  PointIn:\n    model: probe/boxmodel.PointIn\n"
 			yml := files["gqlgen.yml"]
 			if cf.NoMap {
 				yml = strings.Replace(yml, mapBinding, "", 1)
